@@ -13,6 +13,7 @@ import (
 	"math/rand"
 	"sort"
 	"sync"
+	"sync/atomic"
 	"time"
 
 	"github.com/pion/interceptor"
@@ -90,6 +91,11 @@ func runFail(c failCase, fails *[]cq.ImplFailure) failCase { //nolint:cyclop
 	var calls []fcall
 	var last time.Time
 	seen := map[[2]int64]int{} // (stream, header sequence number) -> times seen
+	var finished atomic.Bool
+	limit := 64
+	for _, w := range c.Writers {
+		limit += 4 * len(w)
+	}
 	failCall := map[int]bool{}
 	for _, k := range c.Plan.Calls {
 		failCall[k] = true
@@ -106,8 +112,18 @@ func runFail(c failCase, fails *[]cq.ImplFailure) failCase { //nolint:cyclop
 	}
 	next := func(w int) interceptor.RTPWriter {
 		return interceptor.RTPWriterFunc(func(h *rtp.Header, p []byte, _ interceptor.Attributes) (int, error) {
+			if finished.Load() { // the case is over: a pacer still calling (a loop that cannot stop) is slowed down to a crawl
+				time.Sleep(20 * time.Millisecond)
+
+				return 0, planErr(c.Plan.ErrKind)
+			}
 			mu.Lock()
 			defer mu.Unlock()
+			if len(calls) >= limit { // far more calls than packets: enough is recorded, do not let a spinning loop eat the machine
+				time.Sleep(time.Millisecond)
+
+				return 0, planErr(c.Plan.ErrKind)
+			}
 			idx := len(calls)
 			key := [2]int64{int64(w), int64(h.SequenceNumber)}
 			seen[key]++
@@ -219,6 +235,7 @@ func runFail(c failCase, fails *[]cq.ImplFailure) failCase { //nolint:cyclop
 	case <-time.After(3 * time.Second):
 		*fails = append(*fails, cq.ImplFailure{Kind: "close-blocks", Detail: "Close did not return (failing next writers)", Case: c})
 	}
+	finished.Store(true)
 	mu.Lock()
 	c.Calls = append([]fcall{}, calls...)
 	mu.Unlock()
